@@ -175,6 +175,32 @@ def body(ctx):
                 bb = lambda x: "true" if x else "false"
                 lines.append(f"C19.run\t(({fsx}) ({bb(aw)} false false false 0))\t({rc} {bb(summary is not None)} {counts} {perr} {pwarn})")
                 ctx.stats["dangling_entry_runs"] = ctx.stats.get("dangling_entry_runs", 0) + 1
+    # many diagnostics: the exit status is an 8-bit quantity for the operating system; whatever the tool hands over, a run
+    # that reported something must not exit 0 — totals that are multiples of 256 included
+    d = os.path.join(ctx.workdir, "manydiags")
+    os.makedirs(d, exist_ok=True)
+    cli.write_config(d, name="cfgmany.toml")
+    cli.write_config(d, lints={"unused_variable": "deny"}, name="cfgmany_deny.toml")
+    for total, split in ((255, None), (256, None), (257, None), (512, None), (256, 200)):
+        names = []
+        parts = [total] if split is None else [split, total - split]
+        for j, n in enumerate(parts):
+            fname = f"w{total}_{j}_{'s' if split else 'o'}.lua"
+            with open(os.path.join(d, fname), "w") as fh:
+                fh.write("".join(f"local unused_{k} = {k}\n" for k in range(n)))
+            names.append(fname)
+        for cfgname, sev in (("cfgmany.toml", "warning"), ("cfgmany_deny.toml", "error")):
+            rc, out, err = cli.run_selene(["--config", cfgname, "--num-threads", "2", "--display-style", "json2"] + names, d, timeout=300)
+            diags, summary, bad = cli.parse_json_lines(out)
+            ctx.evaluations += 1
+            ctx.stats["many_diagnostics_runs"] = ctx.stats.get("many_diagnostics_runs", 0) + 1
+            printed = len(diags)
+            if printed != total or summary is None or summary.get("errors", 0) + summary.get("warnings", 0) != total:
+                ctx.violation(f"implementation violates the specification: {total} unused locals ({sev}s) in {len(names)} file(s): {printed} diagnostics printed, summary {summary}",
+                              f"directory: {d}\nfiles: {' '.join(names)}\nconfig: {cfgname}")
+            elif rc == 0:
+                ctx.violation(f"implementation violates the specification: a run that printed {total} {sev}s (summary {summary}) exits with status 0",
+                              f"directory: {d}\nfiles: {' '.join(names)} ({' + '.join(map(str, parts))} unused locals)\nconfig: {cfgname}\nexit status: {rc}")
     # crashed workers: stdout is /dev/full, so every file that has something to print panics in its worker
     # (the write fails); files with nothing to print do not. Exit must be 1 whenever a worker crashed.
     b = lambda x: "true" if x else "false"
